@@ -66,14 +66,20 @@ func endErrOf(kind int) error {
 }
 
 // the scripted read-end kinds of the case being run: a Result error identical to one of them is "the read error"
-var caseKinds []int
+var caseKinds []int // kept for the probes; classification is per direction (errClassOf)
 
-func errClass(e error) int {
-	for _, k := range caseKinds {
+// errClassOf: class of a Result error, given the scripted failure kind(s) of the read side that feeds that direction:
+// an error identical to that scripted failure is "the read error" (1)
+func errClassOf(e error, kinds ...int) int {
+	for _, k := range kinds {
 		if k >= 1 && e == kindErrs[k] {
 			return 1
 		}
 	}
+	return errClass(e)
+}
+
+func errClass(e error) int {
 	switch {
 	case e == nil:
 		return 0
@@ -557,7 +563,7 @@ func runUDP(dgrams [][]byte, uend, pauseAt, uwfail int, tun streamSpec, big bool
 	t.mu.Unlock()
 	if res != nil {
 		o.Sent, o.Recv = res.BytesSent, res.BytesReceived
-		o.SendErr, o.RecvErr = errClass(res.SendError), errClass(res.ReceiveError)
+		o.SendErr, o.RecvErr = errClassOf(res.SendError, uend), errClassOf(res.ReceiveError, tun.End)
 	}
 	o.Events = log.snapshot()
 	if o.Delivered == nil {
@@ -830,7 +836,7 @@ func runTCPCase(c *caseIn, out *caseOut) {
 	o.OnDone = int(atomic.LoadInt32(&onDone))
 	if res != nil {
 		o.Sent, o.Recv = res.BytesSent, res.BytesReceived
-		o.SendErr, o.RecvErr = errClass(res.SendError), errClass(res.ReceiveError)
+		o.SendErr, o.RecvErr = errClassOf(res.SendError, c.A.End), errClassOf(res.ReceiveError, c.B.End)
 	}
 	da, db := unhx(c.A.Data), unhx(c.B.Data)
 	if o.Spin != "" {
